@@ -200,11 +200,34 @@ theorem converges_full_false : ¬ C16_converges_full := by
 /-! ## pre-creation -/
 
 /-- `GetTopic` on a new topic creates, before `t.Start()` (tie `getTopic_precreate_before_start`), exactly the
-channels some queried lookupd returned, minus `#ephemeral` ones: nothing known is missed, nothing is invented.
+non-`#ephemeral` channels returned by the lookupds whose HTTP query *succeeded* — the union over the reachable
+ones, whatever happened to the others (`none` = down / refused / timeout / garbage). Nothing a reachable lookupd
+knows is missed because another lookupd failed (tie `getTopic_loop_not_guarded_by_err`), nothing is invented.
 (A message published meanwhile waits in the topic queue until `Start`, so it reaches all of them.) -/
-theorem precreate_exact (answers : List (List String)) (c : String) :
-    c ∈ precreate answers ↔ (∃ a ∈ answers, c ∈ a) ∧ c.endsWith "#ephemeral" = false := by
-  simp [precreate, List.mem_filter, List.mem_eraseDups, List.mem_flatten]
+theorem precreate_exact (answers : List (Option (List String))) (c : String) :
+    c ∈ precreate answers ↔ (∃ a, some a ∈ answers ∧ c ∈ a) ∧ c.endsWith "#ephemeral" = false := by
+  simp [precreate, List.mem_filter, List.mem_eraseDups, List.mem_flatten, List.mem_filterMap]
+
+/-- a failing lookupd never removes a channel from the result: adding failed queries (anywhere) changes nothing -/
+theorem precreate_ignores_failures (answers : List (Option (List String))) (c : String) (pre post : Nat) :
+    c ∈ precreate (List.replicate pre none ++ answers ++ List.replicate post none) ↔ c ∈ precreate answers := by
+  simp only [precreate_exact]
+  constructor
+  · rintro ⟨⟨a, ha, hc⟩, he⟩
+    refine ⟨⟨a, ?_, hc⟩, he⟩
+    simp only [List.mem_append, List.mem_replicate] at ha
+    rcases ha with (⟨_, h⟩ | h) | ⟨_, h⟩
+    · simp at h
+    · exact h
+    · simp at h
+  · rintro ⟨⟨a, ha, hc⟩, he⟩
+    exact ⟨⟨a, by simp [ha], hc⟩, he⟩
+
+/-- when every query fails nothing is pre-created (the topic starts empty, as the code logs) -/
+theorem precreate_all_failed (n : Nat) : precreate (List.replicate n none) = [] := by
+  induction n with
+  | zero => rfl
+  | succ k ih => simp [precreate, List.replicate_succ]
 
 /-! ## non-vacuity -/
 
@@ -218,6 +241,6 @@ example : diverged (run State.init goodSchedule) [("t", ""), ("t", "c")] [("t", 
 
 example : readResponse true 1024 [0, 0, 0, 2, 79, 75] = .ok [79, 75] := by decide
 example : readResponse true 1 [0, 0, 0, 2, 79, 75] = .err := by decide
-example : (∃ a ∈ [["a", "b"], ["b"]], "a" ∈ a) := ⟨["a", "b"], by simp, by simp⟩
+example : ∃ a, some a ∈ [none, some ["a", "b"], none, some ["b"]] ∧ "a" ∈ a := ⟨["a", "b"], by simp, by simp⟩
 
 end Nsq.Props.C16
